@@ -118,7 +118,7 @@ class KeplerianImpulsiveMan(ImpulsiveMan):
         self._dv = dkep2dv(orb, da=self.da, di=self.di, dOmega=self.dOmega)
 
         # dv converted to the inertial frame
-        return to_tnw(orb).T @ self._dv
+        return to_tnw(orb.copy(form="cartesian")).T @ self._dv
 
 
 class ContinuousMan(Man):
